@@ -30,6 +30,8 @@ def apply_damage(cells, regions, ops):
     resolved.sort(key=lambda t: -t[0])
     for pos, op, end in resolved:
         k = op['k']
+        if pos >= len(out):
+            continue      # a truncation at the same position already removed this cell
         if k == 'flip':
             out[pos] ^= 1
         elif k == 'burst':
